@@ -15,7 +15,7 @@ CLAIMED = {
  "C02": ("tlc-regions", "TLC action property AppendOnly on RegionsMC + replay re-reading every live index after each step + ICMC index sequences replayed through regions + TLC trace validation of recorded histories (TraceContract, TraceHuffman, TraceDict, TraceCodedColumns)",
          "AppendOnly is checked as an action property on the Level-B model (with structural invariants explaining why); on the code every transition that pushes or reserves is replayed and all earlier reads are compared before/after.", "5 C02"),
  "C03": ("tlc-flatstack", "TLC model check of FlatStackMC (Denote invariant) + per-transition replay on real FlatStacks + ICMC index sequences replayed through FlatStacks + TLC trace validation of recorded stack histories (TraceContract)",
-         "The stack denotes the copied sequence for every index container (Vec, IndexOptimized, IndexList); each transition (copy/extend/from_iter/clear/clone/serde/reserve/with_capacity/merge_capacity) is replayed and len, is_empty, get(0..len+2), iteration, cloned iterators and size hints are compared with the model.", "5 C03"),
+         "The stack denotes the copied sequence for every index container (Vec, IndexOptimized, IndexList); each transition (copy/extend/from_iter/clear/clone/clone_from/serde/reserve/reserve_items/reserve_regions/with_capacity/merge_capacity) is replayed and len, is_empty, get(0..len+2), iteration, cloned iterators and size hints are compared with the model.", "5 C03"),
  "C04": ("tlc-regions", "TLC invariant StringsValid (Utf8.tla DFA) on string-bearing shapes + replay checking bytes of every &str + TLC trace validation of StringRegion over the dictionary codec (TraceDict) + StringAlphabet facts of the program text",
          "Every string read in the model is valid UTF-8 and was pushed into that slot; on the code every &str handed out along every replayed transition is validated byte-wise (std::str::from_utf8 on as_bytes) and must be one of the pushed strings.", "5 C04"),
  "C05": ("tlc-index", "TLC model check of ICMC over exact 64-bit words + replay of every transition on the real containers + TLC trace validation of long recorded walks (TraceIC)",
@@ -29,7 +29,7 @@ CLAIMED = {
  "C09": ("tlc-regions", "TLC model with Copy actions (identity on every Level-B field) + replay comparing copy and original + TLC trace validation of recorded histories with copies (TraceContract, TraceIC, TraceHuffman, TraceCodedColumns)",
          "After clone / clone_from (destination pre-filled) the copy must read identically, evolve independently, and answer the same continuation as the original (both real objects, compared with each other).", "5 C09"),
  "C10": ("tlc-regions", "TLC invariant MergeFresh + stuttering reserve actions; replay against a twin that never reserved + TLC trace validation of recorded merge / reservation histories (TraceContract, TraceHuffman, TraceDict, TraceCodedColumns)",
-         "reserve_items / reserve_regions / FlatStack::reserve / with_capacity are stuttering steps of the model; merge_regions yields a state observationally equal to Init. On the code the history without the reservations must end in the same indices and reads, and a merged region must be empty and read back what is pushed.", "5 C10"),
+         "reserve_items / reserve_regions / FlatStack::reserve / FlatStack::reserve_items / with_capacity are stuttering steps of the model; merge_regions yields a state observationally equal to Init. On the code the history without the reservations must end in the same indices and reads, and a merged region must be empty and read back what is pushed.", "5 C10"),
  "C11": ("tlc-regions", "TLC invariant CollapseExact + replay comparing index-equality pattern and stored bytes + TLC trace validation of recorded histories (TraceContract)",
          "For collapsing regions at any depth the model fixes which pushes return the previous index; the replay requires the same equality pattern among returned indices, no byte stored when collapsed, and correct reads, around clear/merge/clone/serde.", "5 C11"),
  "C12": ("tlc-regions", "TLC invariant Dense + replay comparing numeric indices and rows + ICMC offset sequences replayed through ConsecutiveIndexPairs + TLC trace validation of recorded histories (TraceContract)",
